@@ -122,7 +122,7 @@ def run_kani(spec, tier):
         env[spec['tier_env']] = tier
     inputs = [os.path.join(crate_dir, 'src'), os.path.join(crate_dir, 'Cargo.toml'), os.path.join(crate_dir, 'build.rs'),
               os.path.join(VERIF, 'kani', 'incrate') if spec['crate'] == 'incrate' else os.path.join(crate_dir, 'Cargo.toml'),
-              os.path.join(REPO, 'Cargo.lock')] + [os.path.join(REPO, c) for c in spec.get('repo_crates', [])]
+              os.path.join(REPO, 'Cargo.lock')] + [os.path.join(REPO, c) for c in spec.get('repo_crates', [])] + list(spec.get('extra_inputs', []))
     key = _hash_inputs(inputs, {'h': spec['harnesses'], 'f': flags, 'v': 'kani-0.68.0', 'e': env})
     cache_file = os.path.join(BUILD, 'kani-cache', '%s-%s.json' % (name, key))
     r.cmd = 'cd %s && cargo kani -Z stubbing -Z unstable-options -j 14 --output-format terse %s %s' % (
@@ -329,10 +329,9 @@ def replay(j):
     target_dir = os.path.join(BUILD, 'kani-' + j['crate'])
     rc_native = None
     if j.get('playback_test'):
-        env = {'CARGO_TARGET_DIR': target_dir}
+        inc = os.path.join(VERIF, 'kani', 'incrate')
+        env = {'CARGO_TARGET_DIR': target_dir, 'VERIF_KANI_DIR': inc}
         if j['crate'] == 'incrate':
-            inc = os.path.join(VERIF, 'kani', 'incrate')
-            env['VERIF_KANI_DIR'] = inc
             h = j['harness']
             pg = os.path.join(inc, 'playback_simple.rs' if '::simple::' in h else 'playback_generic_builder.rs' if '::generic::' in h else 'playback_definition.rs')
         else:
@@ -359,7 +358,7 @@ def replay(j):
     if rc_native == 1:
         return 1
     spec = {'kind': 'kani', 'name': 'replay', 'crate': j['crate'], 'harnesses': [j['harness']], 'flags': j.get('flags', []),
-            'expect': j.get('expect', {}), 'repo_crates': ['truc', 'truc_runtime']}
+            'expect': j.get('expect', {}), 'repo_crates': ['truc', 'truc_runtime'], 'env': {'VERIF_KANI_DIR': os.path.join(VERIF, 'kani', 'incrate')}}
     os.environ['VERIF_NOCACHE'] = '1'
     r = run_kani(spec, 'quick')
     print('harness %s re-verified on the current tree: %s %s' % (j['harness'], r.status, r.reason))
